@@ -67,6 +67,18 @@ inline void theta_states(bool quick, const StateCb& cb, bool compressed) {
       cb("lgk" + str(lgk) + "/p" + str(ps[pi]) + "/n" + str(n) + (ord ? "/ordered" : "/unordered"), o);
     }
   }
+  // every delta width 1..63 of the compressed format x entry counts 1..17 (blocks of 8 plus every tail length) x delta patterns,
+  // built through the private constructor from synthetic ordered entries
+  for (int w = 1; w <= 63; ++w) for (int cnt = 1; cnt <= 17; ++cnt) for (int pat = 0; pat < 3; ++pat) {
+    if (quick && !(cnt == 1 || cnt == 7 || cnt == 8 || cnt == 9 || cnt == 17) ) continue;
+    const uint64_t big = w == 63 ? 0x4000000000000000ULL : ((uint64_t)1 << (w - 1)) | (pat == 1 && w > 1 ? (((uint64_t)1 << (w - 1)) - 1) : 0);   // top bit of the width set (pattern 1: all ones)
+    std::vector<uint64_t, A64> e((A64(1))); uint64_t v = 0; bool ok = true;
+    for (int i = 0; i < cnt; ++i) { uint64_t d = (pat == 2 ? (i == cnt - 1) : (i == 0)) ? big : (pat == 1 ? 1 : 1 + (uint64_t)(i % 3)); if (d > big) d = big; if (v + d < v || v + d >= 0x7fffffffffffffffULL) { ok = false; break; } v += d; e.push_back(v); }
+    if (!ok || e.empty()) continue;
+    const uint64_t theta = e.back() + 1 < 0x7fffffffffffffffULL ? e.back() + 1 : 0x7fffffffffffffffULL;
+    ThetaObj o(CTheta(false, true, compute_seed_hash(DEFAULT_SEED), theta, std::move(e)), compressed);
+    cb("bitpack/w" + str(w) + "/cnt" + str(cnt) + "/pat" + str(pat), o);
+  }
   // union results (theta below the minimum input theta, trimmed to k)
   for (int lgk = 5; lgk <= 6; ++lgk) for (int n = 20; n <= 400; n += 95) {
     theta_union_alloc<A64> u = theta_union_alloc<A64>::builder(A64(1)).set_lg_k((uint8_t)lgk).build();
